@@ -35,6 +35,8 @@ pub const SUBS: &[SubDef] = &[
     SubDef { prop: "C05", name: "overlong", oracle: overlong },
     SubDef { prop: "C05", name: "tag_arbitrary", oracle: tag_arbitrary },
     SubDef { prop: "C05", name: "inner_overlong", oracle: inner_overlong },
+    SubDef { prop: "C05", name: "empty_only_in_list", oracle: empty_only_in_list },
+    SubDef { prop: "C05", name: "equality", oracle: equality },
 ];
 
 fn run(ctx: &Ctx) {
@@ -45,6 +47,8 @@ fn run(ctx: &Ctx) {
     ctx.run_tape("overlong", overlong, ctx.pick(60_000, 300_000), 700);
     ctx.run_tape("tag_arbitrary", tag_arbitrary, ctx.pick(100_000, 500_000), 300);
     ctx.run_tape("inner_overlong", inner_overlong, ctx.pick(80_000, 400_000), 300);
+    ctx.run_tape("empty_only_in_list", empty_only_in_list, ctx.pick(40_000, 200_000), 400);
+    ctx.run_tape("equality", equality, ctx.pick(60_000, 300_000), 500);
 }
 
 type P = fn(&[u8]) -> IResult<&[u8], TlsExtension>;
@@ -326,6 +330,74 @@ fn empty_only(t: &mut Tape, obs: &mut Obs) -> R {
             ensure!(got.is_err(), format!("C05:empty-only:{}", pn), "{}: accepted {} byte(s) of data: {:?}", pn, n, got);
         }
     }
+    Ok(())
+}
+
+/// the same rule inside a block: well-formed extensions, then an empty-only type that carries data, then more well-formed ones.
+/// Whatever a list parser does with such a block (stop in front of the offending extension, or refuse the block), it must not
+/// return an element for it: everything it returns is the decoded well-formed prefix.
+fn empty_only_in_list(t: &mut Tape, obs: &mut Obs) -> R {
+    let ty = t.pick(&[22u16, 23, 49, 13172]);
+    let prefix = gen_ext_list(t, 4, 300);
+    let suffix = gen_ext_list(t, 3, 200);
+    let n = 1 + t.small(12);
+    let data = t.bytes(n);
+    let mut buf = encode_ext_list(&prefix).buf;
+    let at = buf.len();
+    buf.extend(ext_bytes(ty, &data));
+    buf.extend(encode_ext_list(&suffix).buf);
+    obs.nontrivial(fnv64(&buf));
+    obs.sample_class(&format!("type={}:after={}", ty, prefix.len()), || json!({"type": ty, "data_bytes": n, "well_formed_before": prefix.len(), "well_formed_after": suffix.len(), "hex": hex_short(&buf)}));
+    for (dn, p) in LIST_PARSERS {
+        if !recognised(dn, ty) {
+            continue;
+        }
+        let r = guard("extension list parser", || p(&buf).map(|(rem, v)| (rem.len(), conv::exts(&v))).map_err(|e| e.map(|x| x.code)))?;
+        if let Ok((rl, v)) = r {
+            ensure!(v.len() <= prefix.len(), format!("C05:empty-only-in-list:{}:type={}", dn, ty), "{} list parser: extension type {} is defined as empty, carries {} byte(s) of data, and the parser returned {} element(s) for a block with {} well-formed extension(s) in front of it; element {} is {}", dn, ty, n, v.len(), prefix.len(), prefix.len(), trunc(&format!("{:?}", v.get(prefix.len()))));
+            for (i, got) in v.iter().enumerate() {
+                let want = expected_for(dn, &prefix[i]);
+                let ok = *got == want || (*got == prefix[i].canon() && KNOWN_EXT_TYPES.contains(&prefix[i].wire_type()));
+                ensure!(ok, format!("C05:empty-only-in-list:{}:prefix-element", dn), "{} list parser: element {} in front of the offending extension is {}, expected {}", dn, i, trunc(&format!("{:?}", got)), trunc(&format!("{:?}", want)));
+            }
+            ensure!(v.len() < prefix.len() || rl >= buf.len() - at, format!("C05:empty-only-in-list:{}:consumed", dn), "{} list parser consumed bytes of the offending extension: {} bytes left, the extension starts {} bytes before the end", dn, rl, buf.len() - at);
+        }
+    }
+    Ok(())
+}
+
+/// "with exact contents ... byte-for-byte" is decided by comparing values, and callers compare decoded values with `==`: two blocks
+/// that decode to field-wise different values must not compare equal, and one block decoded twice must compare equal.
+fn equality(t: &mut Tape, obs: &mut Obs) -> R {
+    let l = gen_ext_list(t, 4, 400);
+    if l.is_empty() {
+        return Ok(());
+    }
+    let a = encode_ext_list(&l).buf;
+    let mut b = a.clone();
+    let pos = t.below(b.len());
+    let delta = 1 + t.below(255) as u8;
+    b[pos] = b[pos].wrapping_add(delta);
+    let a2 = a.clone();
+    for (dn, p) in LIST_PARSERS {
+        let verdict = guard("extension list parser", || {
+            let (ra, rb, ra2) = (p(&a), p(&b), p(&a2));
+            match (&ra, &rb, &ra2) {
+                (Ok((_, va)), Ok((_, vb)), Ok((_, va2))) => Some((conv::exts(va) != conv::exts(vb), va == vb, va != vb, va == va2, va != va2, format!("{:?}", va), format!("{:?}", vb))),
+                _ => None,
+            }
+        })?;
+        if let Some((differ, eq, ne, same_eq, same_ne, da, db)) = verdict {
+            obs.evals_add(1);
+            ensure!(same_eq && !same_ne, format!("C05:equality:{}:same-bytes-unequal", dn), "{} list parser: one block decoded twice gives values that do not compare equal: {}", dn, trunc(&da));
+            if differ {
+                obs.nontrivial(fnv64(&b));
+                obs.class("decoded-values-differ");
+                ensure!(!eq && ne, format!("C05:equality:{}:different-values-compare-equal", dn), "{} list parser: two blocks differing in byte {} decode to different contents but the values compare equal (== {}, != {}): {} vs {}", dn, pos, eq, ne, trunc(&da), trunc(&db));
+            }
+        }
+    }
+    obs.sample(json!({"extensions": l.iter().map(|x| x.name()).collect::<Vec<_>>(), "changed_byte": pos}));
     Ok(())
 }
 
